@@ -41,6 +41,8 @@ func init() {
 			{ID: "C01-R14", Title: "raw string text becomes a constant only where the literal is not a template", Floor: 1, Run: plainStringConstantsOnlyForPlainStrings},
 			{ID: "C01-R15", Title: "block scopes are opened on every path that compiles the block", Floor: 3, Run: blockScopesOpenedUnconditionally},
 			{ID: "C01-R16", Title: "hand-made indices into a parallel sequence advance on every path", Floor: 1, Run: counterAdvancedBeforeContinue},
+			{ID: "C01-R17", Title: "stores to resolved names test constness first", Floor: 4, Run: storesToResolvedNamesCheckConstness},
+			{ID: "C01-R18", Title: "computed messages are not used as format strings", Floor: 1, Run: messagesAreNotFormats},
 		},
 	})
 }
